@@ -84,7 +84,7 @@ pub struct Op { opaque: u8 }
 pub struct Resources { opaque: u8 }
 pub struct Content { opaque: u8 }
 pub struct Annot { opaque: u8 }
-pub struct InfoDict { opaque: u8 }
+pub struct Date { opaque: u8 }        // object/types.rs: an entry type of InfoDict; nothing looks inside
 pub struct CryptDict { opaque: u8 }
 pub struct NameDictionary { opaque: u8 }
 pub struct Outlines { opaque: u8 }
@@ -136,6 +136,8 @@ pub trait Resolve {}
 //@@ struct PageTree
 //@@ struct Page
 //@@ struct Catalog
+//@@ enum Trapped
+//@@ struct InfoDict
 //@@ struct Trailer
 //@@ struct PageBuilder
 //@@ struct CatalogBuilder
